@@ -204,3 +204,34 @@ pub mod trapping {
         }
     }
 }
+
+/// A token that moves balances without checking the sign of the amount (still asks the sender's
+/// authorisation): contracts that take payments must not rely on the token to refuse negatives.
+pub mod naivetoken {
+    use soroban_sdk::{contract, contractimpl, contracttype, Address, Env};
+    #[contracttype]
+    #[derive(Clone)]
+    pub enum NKey {
+        Bal(Address),
+    }
+    #[contract]
+    pub struct NaiveToken;
+    #[contractimpl]
+    impl NaiveToken {
+        pub fn balance(env: Env, id: Address) -> i128 {
+            env.storage().persistent().get(&NKey::Bal(id)).unwrap_or(0)
+        }
+        pub fn mint(env: Env, to: Address, amount: i128) {
+            let b: i128 = env.storage().persistent().get(&NKey::Bal(to.clone())).unwrap_or(0);
+            env.storage().persistent().set(&NKey::Bal(to), &(b + amount));
+        }
+        pub fn transfer(env: Env, from: Address, to: Address, amount: i128) {
+            from.require_auth();
+            let fb: i128 = env.storage().persistent().get(&NKey::Bal(from.clone())).unwrap_or(0);
+            assert!(fb >= amount, "insufficient balance");
+            let tb: i128 = env.storage().persistent().get(&NKey::Bal(to.clone())).unwrap_or(0);
+            env.storage().persistent().set(&NKey::Bal(from), &(fb - amount));
+            env.storage().persistent().set(&NKey::Bal(to), &(tb + amount));
+        }
+    }
+}
